@@ -60,7 +60,7 @@ def run(ctx) -> None:
   ctx.rule('R3', 'a metadata update naming a missing trial changes nothing and is reported', 3)
   ctx.rule('R4', 'designer policies write their state only under their reserved namespace root', 1)
   ctx.rule('R5', 'KeyValue.ns is written from Namespace.encode() and read through Namespace.decode()', 2)
-  ctx.import_rules('C07', {'R8'}, 'R10', 'metadata is written to the addressed study / trial only: exact key filters (owner, study, trial) in the SQL backend')
+  ctx.import_rules('C07', {'R8', 'R9'}, 'R10', 'metadata is written to the addressed study / trial only: exact key filters (owner, study, trial) in the SQL backend')
   ctx.import_rules('C05', {'R1', 'R2'}, 'R9', 'an acknowledged metadata update is committed whole on the SQL backend (no write of the call is rolled back or left pending)')
   ctx.import_rules('C04', {'R1', 'R4'}, 'R7', 'no lost metadata updates: whole-row read-modify-writes and metadata merges share a lock region')
   ctx.rule('R11', 'client handles read through: every materialize*() result comes from a service call made in that very call '
